@@ -109,8 +109,10 @@ class TComp(fm.TimeComponent):
             self.events.append(["P", self.idx, i, us_of(self.time)])
             d = self.inputs[f"i{i}"].pull_data(self.time)
             self.received.append([i, us_of(self.time), fin.scalar_of(d)])
-        for o in range(self.spec["nout"]):
-            self.outputs[f"o{o}"].push_data(self.value(), self.time)
+        if self.cnt % max(1, self.spec.get("pubevery", 1)) == 0:
+            # a component may skip publications (components.CallbackGenerator does when its callback returns None)
+            for o in range(self.spec["nout"]):
+                self.outputs[f"o{o}"].push_data(self.value(), self.time)
 
     def _finalize(self):
         self.calls.append("F")
